@@ -168,6 +168,14 @@ func c05(r *sim.R) *sim.Violation {
 			if werr == nil {
 				sig = "write-out acknowledged despite the fault, " + wd.dayState(wo, oldMeta, oldName)
 			}
+			if werr == nil && writeFaultSwallowed(ops, ep) {
+				// "the write reports an error": a failed write(2), or a failed close(2) of a file this
+				// write-out wrote to (the kernel reports deferred write errors there), was acknowledged
+				if v := r.Report(&sim.Violation{Clause: "write-error-swallowed", Signature: "write-out acknowledged although " + string(opd.Kind) + " of " + opSig(opd.Path) + " failed",
+					Detail: fmt.Sprintf("history step %d: %s; %v (%s); write-out returned nil", i, wo, ep, where)}); v != nil {
+					return v
+				}
+			}
 			st := fmt.Sprintf("%s/%v", wd.fs.TreeHash(tree), werr == nil)
 			if states[st] {
 				r.Probe("duplicate_post_fault_state")
@@ -191,6 +199,23 @@ func c05(r *sim.R) *sim.Violation {
 		m = after
 	}
 	return nil
+}
+
+// writeFaultSwallowed says whether the faulted operation is one whose failure means that data of
+// this write-out may not have reached the file: a write, or the close of a file written before.
+func writeFaultSwallowed(ops []simfs.Op, ep errPoint) bool {
+	opd := ops[ep.ix]
+	switch opd.Kind {
+	case simfs.OpWrite:
+		return true
+	case simfs.OpClose:
+		for _, o := range ops[:ep.ix] {
+			if o.Kind == simfs.OpWrite && o.Path == opd.Path && o.N > 0 {
+				return true
+			}
+		}
+	}
+	return false
 }
 
 // afterFault checks the obligations of C05 once the fault has cleared.
